@@ -24,7 +24,7 @@ NAME_POOL = ["users", "orders", "items", "t_x", "acc", "posts", "m2m", "zeta"]
 COL_POOL = ["id", "name", "val", "ref_id", "status", "created_at", "k", "x1"]
 TYPES = ["int", "varchar", "text", "varchar(255)", "timestamp"]
 SCHEMAS = ["public", "public", "s1", "s2"]
-TEXTS = ["plain", "it's", "two words", "", "multi\nline", "a 'q' b", "x"]
+TEXTS = ["plain", "it's", "two words", "", "multi\nline", "a 'q' b", "x", "trailing \nspace  ", "gap\n\nline"]
 SIMPLE_TEXTS = ["plain", "two words", "x", "note one"]
 DEFAULTS = [None, 0, 1, 2.5, True, False, "", "str", "NULL", ["expr", "now()"], "it's"]
 ACTIONS = [None, "cascade", "set null", "no action", "restrict"]
@@ -59,7 +59,7 @@ def gen_world(rng: random.Random, parse_friendly: bool) -> World:
                 break
         t = w.table(nm, schema=sc, alias=rng.choice([None, None, f"al{k}"]),
                     note=rng.choice(["", "", rng.choice(txt)]),
-                    header_color=rng.choice(COLORS), comment=None if parse_friendly else rng.choice([None, "tc", "t\nc"]),
+                    header_color=rng.choice(COLORS), comment=None if parse_friendly else rng.choice([None, "tc", "t\nc", "t\n\nc", "ends "]),
                     properties={"tp": "v"} if rng.random() < 0.3 and (d["allow_properties"] or not parse_friendly) else None,
                     ctor_cols=rng.random() < 0.5)
         for cn in rng.sample(COL_POOL, rng.randint(1, 4)):
@@ -327,6 +327,10 @@ def realize_by_parse(env: Env, w: World, db: str, renderers: Optional[Dict[str, 
 
 # ---------------------------------------------------------------------- engine
 
+class Abandon(Exception):
+    pass
+
+
 class C10Engine:
     def __init__(self, env: Env, world: World, via: str) -> None:
         self.env = env
@@ -462,6 +466,13 @@ class C10Engine:
             i = m[op[1]]["idxs"][op[2]]
             if op[3] == "obj" and any(w.idx_content(x) == w.idx_content(i) for x in m[op[1]]["idxs"] if x != i):
                 return "equal twin index"
+        elif k == "rejected_add_index":
+            _, t, i = op
+            if i not in m or m[i]["table"] in (None, t) or not any(s[0] == "col" for s in m[i]["subjects"]):
+                return "not a foreign index"
+        elif k == "rejected_add_table":
+            if op[1] not in m[self.db]["tables"]:
+                return "not contained"
         elif k == "gitem_add":
             _, g, t = op
             if t not in m or m[t]["kind"] != "table" or m[t]["db"] != self.db or t in m[g]["items"]:
@@ -600,6 +611,19 @@ class C10Engine:
             i = m[t]["idxs"].pop(n)
             m[i]["table"] = None
             real[t].delete_index(real[i] if op[3] == "obj" else n)
+        elif k in ("rejected_add_index", "rejected_add_table"):
+            # an operation that has to be refused (index over foreign columns / second table with a used name):
+            # whatever the error, the model and hence every rendering must stay as it was
+            try:
+                if k == "rejected_add_index":
+                    real[op[1]].add_index(real[op[2]])
+                else:
+                    td = m[op[1]]
+                    real[self.db].add(C.Table(td["name"], schema=td["schema"], columns=[C.Column("dup", "int")]))
+            except Exception:
+                self.count("fault:" + k)
+            else:
+                raise Abandon("operation that must be refused was accepted (C09's business): run abandoned")
         elif k == "gitem_add":
             m[op[1]]["items"].append(op[2])
             real[op[1]].items.append(real[op[2]])
@@ -778,6 +802,11 @@ def draw_op(rng: random.Random, eng: C10Engine) -> List[Any]:
         return ["set", h, f, {"name": rng.choice(["sn0", "sn_new"]), "text": rng.choice(TEXTS)}[f]]
     if r < 0.97:
         rr = rng.random()
+        if rr < 0.15:
+            idxs = [i for t in tables for i in m[t]["idxs"]]
+            if idxs and len(tables) > 1:
+                return ["rejected_add_index", rng.choice(tables), rng.choice(idxs)]
+            return ["rejected_add_table", rng.choice(tables)]
         if rr < 0.3 and d["groups"]:
             g = rng.choice(d["groups"])
             if rng.random() < 0.5:
@@ -837,6 +866,8 @@ def run_ops(env: Env, wcomp: Dict[str, Any], ops: List[List[Any]], checks: Optio
     try:
         for idx, op in enumerate(ops):
             eng.step(op, idx, checks is None or idx in checks or idx == len(ops) - 1)
+    except Abandon:
+        eng.count("abandoned:unexpected-accept")
     except Violation as v:
         res["violation"] = {"property": v.prop, "oracle": v.oracle, "signature": v.signature, "detail": v.detail}
     res["counters"] = eng.counters
@@ -877,6 +908,8 @@ def generate(env: Env, rseed: int, thorough: bool):
                 ops.append(op)
         if not checks or checks[-1] != len(ops) - 1:
             eng.compare({"index": len(ops) - 1, "op": ops[-1] if ops else ["none"]})
+    except Abandon:
+        eng.count("abandoned:unexpected-accept")
     except Violation as v:
         checks.append(len(ops))
         ops.append(op)
